@@ -107,7 +107,8 @@ func (s *scn) checkStoredChain(r *replica, h uint64, who string) {
 			s.vio("C09", "chain-meta", "interchain-count", "chain meta interchain count %d after block %d, sum over the delivery counters of all blocks %d", meta.InterchainTxCount, h, s.icCum)
 			s.icCum = meta.InterchainTxCount
 		}
-	} else if meta.InterchainTxCount != s.icCum {
+	} else if h == s.height && meta.InterchainTxCount != s.icCum {
+		// (only at the reference's own height: a variant block may carry one interchain transaction less)
 		s.vio("C09", "chain-meta", "interchain-count-after-rollback", "%s: chain meta interchain count %d after block %d, reference %d", who, meta.InterchainTxCount, h, s.icCum)
 	}
 }
